@@ -124,6 +124,18 @@ def build_double_carry_ipv4(rng):
                 uh, ue = build_udp(rng, pl, src, dst, v6=False, dport=rng.choice([1000, 2000]), correct=True)
                 return ih + uh + pl, ie + ue, pl
 
+def build_zero_checksum_ipv4(rng):
+    """an IPv4/UDP packet whose correct HEADER checksum is 0x0000 (the other header words sum to 0xFFFF; RFC 791 has no
+    "zero is sent as all ones" rule — that is UDP's): (bytes, expected fields, payload bytes)"""
+    pl = bytes(rng.randrange(256) for _ in range(rng.randrange(0, 16)))
+    ih, ie, src, dst = build_ipv4(rng, bytes(8) + pl, 17, True, ident=0)
+    s0 = inet_sum(ih[:10] + b'\x00\x00' + ih[12:])
+    ident = (~s0) & 0xffff
+    ih = ih[:4] + struct.pack('!H', ident) + ih[6:10] + b'\x00\x00' + ih[12:]
+    assert inet_checksum(ih) == 0
+    uh, ue = build_udp(rng, pl, src, dst, v6=False, dport=rng.choice([1000, 2000]), correct=True)
+    return ih + uh + pl, cut(IPV4, bits_of(ih)) + ue, pl
+
 # ------------------------------------------------------------------ CoAP (RFC 7252 §3, §3.1)
 
 def coap_ext(v):
